@@ -628,12 +628,24 @@ func c04SimCase(dir string, pseed uint64, mode string, oseed uint64, nops int) (
 	var ops, steps []string
 	total := "~"
 	badBooks := ""
+	badClone := ""
 	record := func() {
 		o, bad := s.observe(total)
 		if bad != "" {
 			badBooks = bad
 		}
 		steps = append(steps, o)
+	}
+	// dynamic fork expansion: a clone of a fork that has not started carries
+	// exactly the fork's books (in particular every nil holder)
+	for _, f := range s.forks {
+		rfa, rfp, _, _ := s.v.Books(f.Node, f.Index)
+		cfa, cfp := s.v.CloneBooks(f.Node, f.Index)
+		if d := c04BooksDiff(rfa, cfa); d != "" {
+			badClone = "fileArgs of a clone of " + shortNode(f.Node) + " " + f.ForkID + ": " + d
+		} else if d := c04BooksDiff(rfp, cfp); d != "" {
+			badClone = "filePostNodes of a clone of " + shortNode(f.Node) + " " + f.ForkID + ": " + d
+		}
 	}
 	nodeDone := map[string]bool{}
 	emitDone := func() {
@@ -745,7 +757,28 @@ func c04SimCase(dir string, pseed uint64, mode string, oseed uint64, nops int) (
 		obs = "-"
 	}
 	verdict = s.oracle(mode, badBooks, total)
+	if badClone != "" {
+		if verdict == "ok" {
+			verdict = "FAIL cloned_fork_books_differ " + badClone
+		} else {
+			verdict += " ;; FAIL cloned_fork_books_differ " + badClone
+		}
+	}
 	return
+}
+
+func c04BooksDiff(a, b map[string][]string) string {
+	for k, l := range a {
+		if strings.Join(l, ",") != strings.Join(b[k], ",") {
+			return fmt.Sprintf("%s: %q in the fork, %q in its clone", k, l, b[k])
+		}
+	}
+	for k, l := range b {
+		if _, ok := a[k]; !ok {
+			return fmt.Sprintf("%s: absent in the fork, %q in its clone", k, l)
+		}
+	}
+	return ""
 }
 
 // oracle: the properties read directly on the directory tree and the reports
